@@ -49,7 +49,7 @@ func (lex *lexer) Lex(out *yySymType) int {
 			tok = LITERAL
 			n, err := strconv.ParseInt(lex.token(), 10, 64)
 			if err != nil {
-				panic(err)
+				panic(SyntaxError(err.Error()))
 			}
 			out.val = int(n)
 			fbreak;
@@ -58,7 +58,7 @@ func (lex *lexer) Lex(out *yySymType) int {
 			tok = LITERAL
 			n, err := strconv.ParseFloat(lex.token(), 64)
 			if err != nil {
-				panic(err)
+				panic(SyntaxError(err.Error()))
 			}
 			out.val = n
 			fbreak;
